@@ -83,6 +83,23 @@ pub fn spawn_probe(role: u8, cfg: SpawnCfg) -> OwningAddr<P> {
 /// 0 = timeout, fail_on_timeout before the mailbox; 1 = fail_on_timeout, timeout before it;
 /// 2 = timeout, fail_on_timeout after it; 3 = fail_on_timeout, timeout after it.
 pub fn spawn_probe_ordered(role: u8, cfg: SpawnCfg, order: u8) -> OwningAddr<P> {
+    match spawn_probe_terminal(role, cfg, order, false) {
+        OwningOrAddr::Own(o) => o,
+        OwningOrAddr::Addr(_) => unreachable!("owning terminal asked for"),
+    }
+}
+
+/// ... and through the builder's *detached* terminal `spawn()` (no owner at all) when nobody in
+/// the scene needs one: the two terminals are separate code paths that must apply the same
+/// configuration.
+pub fn spawn_probe_detached(role: u8, cfg: SpawnCfg, order: u8) -> hannibal::Addr<P> {
+    match spawn_probe_terminal(role, cfg, order, true) {
+        OwningOrAddr::Addr(a) => a,
+        OwningOrAddr::Own(o) => o.detach(),
+    }
+}
+
+fn spawn_probe_terminal(role: u8, cfg: SpawnCfg, order: u8, detached: bool) -> OwningOrAddr {
     let amb = ambient();
     let mut cfg = cfg;
     if amb.generous_timeout && cfg.timeout.is_none() {
@@ -94,6 +111,15 @@ pub fn spawn_probe_ordered(role: u8, cfg: SpawnCfg, order: u8) -> OwningAddr<P> 
     if amb.roomy && cfg.mailbox == Mailbox::U {
         cfg.mailbox = Mailbox::B(16);
     }
+    macro_rules! finish {
+        ($b:expr) => {
+            if detached {
+                OwningOrAddr::Addr($b.spawn())
+            } else {
+                OwningOrAddr::Own($b.spawn_owning())
+            }
+        };
+    }
     if amb.stream {
         let mut b = hannibal::build(Probe::<0>::new(role));
         if let Some((t, fail)) = cfg.timeout {
@@ -101,8 +127,8 @@ pub fn spawn_probe_ordered(role: u8, cfg: SpawnCfg, order: u8) -> OwningAddr<P> 
         }
         let never = HStream::default();
         return match cfg.mailbox {
-            Mailbox::U => b.on_stream(never).spawn_owning(),
-            Mailbox::B(n) => b.bounded_on_stream(n, never).spawn_owning(),
+            Mailbox::U => finish!(b.on_stream(never)),
+            Mailbox::B(n) => finish!(b.bounded_on_stream(n, never)),
         };
     }
     let mut b = hannibal::build(Probe::<0>::new(role));
@@ -124,9 +150,9 @@ pub fn spawn_probe_ordered(role: u8, cfg: SpawnCfg, order: u8) -> OwningAddr<P> 
         _ => b,
     };
     match cfg.strat {
-        Strat::Default => b.spawn_owning(),
-        Strat::Recreate => b.recreate_from_default().spawn_owning(),
-        Strat::NonRestartable => b.non_restartable().spawn_owning(),
+        Strat::Default => finish!(b),
+        Strat::Recreate => finish!(b.recreate_from_default()),
+        Strat::NonRestartable => finish!(b.non_restartable()),
     }
 }
 
